@@ -29,8 +29,9 @@ vars == <<cols, rows, res, hist>>
 Range(s) == {s[i] : i \in DOMAIN s}
 Distinct(s) == \A i, j \in DOMAIN s : i # j => s[i] # s[j]
 Asc(s) == \A i, j \in DOMAIN s : i < j => s[i] < s[j]
-(* channel arguments: every ordered list of <= 2 distinct positions, ascending lists beyond *)
-ChanArgsTab == [n \in 1..4 |-> {s \in UNION {[1..k -> 1..n] : k \in 1..n} : Distinct(s) /\ (Len(s) > 2 => Asc(s))}]
+Desc(s) == \A i, j \in DOMAIN s : i < j => s[i] > s[j]
+(* channel arguments: every ordered list of <= 2 distinct positions, ascending and descending lists beyond *)
+ChanArgsTab == [n \in 1..4 |-> {s \in UNION {[1..k -> 1..n] : k \in 1..n} : Distinct(s) /\ (Len(s) > 2 => (Asc(s) \/ Desc(s)))}]
 ChanArgs(n) == ChanArgsTab[n]            \* constant table: evaluated once by TLC
 Spellings == {"name", "pos", "mixed"}
 
